@@ -136,8 +136,23 @@ def _guarded_iter(results, ex):
         ex.shutdown(wait=False, cancel_futures=True)
 
 
+def clean_carve_seconds(ctx, path, wal, tparse, in_process):
+    """seconds the signature / carving / iteration stages take on the undamaged file.  Thorough tier: measured in process.
+    Quick tier: measured in a forked worker that is given 4 x SLOW_CARVE seconds - a base that needs longer is not carved
+    in this tier anyway, and its clean carving can take minutes"""
+    if ctx.thorough():
+        t0 = time.time()
+        in_process()
+        return time.time() - t0
+    res = run_impl(path, 4 * 3.0 + 10 * tparse + 5.0, wal, True, True)
+    if "time" not in res:
+        return float("inf")
+    return max(0.0, res["time"] - tparse)
+
+
 def run(ctx, per_db_quick=48, per_db_thorough=600):
-    CAP = 600.0 if ctx.thorough() else 60.0
+    CAP = 900.0 if ctx.thorough() else 120.0
+    SLOW_CARVE = 3.0
     sc = C.Scratch()
     try:
         r = ctx.rng
@@ -160,18 +175,29 @@ def run(ctx, per_db_quick=48, per_db_thorough=600):
             b = F.build(sc.path(f"base{i}.db"), cfg, r)
             t0 = time.time()
             clean, db, e = D.dump_db(b.path)
-            carve_stage(db, None)
-            bases.append((b, time.time() - t0, hashlib.sha1(clean.encode()).hexdigest()))
+            tparse = time.time() - t0
+            tcarve = clean_carve_seconds(ctx, b.path, None, tparse, lambda: carve_stage(db, None))
+            bases.append((b, tparse, tcarve, hashlib.sha1(clean.encode()).hexdigest()))
         per_db = per_db_thorough if ctx.thorough() else per_db_quick
-        # (200 x the clean run, measured on a loaded machine, can be a quarter of an hour: capped, so that a genuine hang
-        # costs a minute per worker in the quick tier; three of them end the run)
+        # The limit of a damaged copy is relative to what the UNDAMAGED file takes (40 x, at least 10 s, capped): carving a
+        # clean 500 KB database can take minutes (carve_unallocated_space compares every partial match with every uncarved
+        # interval of the region: quadratic in the page size, hence a large constant per page, not a hang), and that is not
+        # what this property is about.  Quick tier: a base whose clean carving stage takes more than SLOW_CARVE seconds has
+        # its damaged copies parsed and iterated but not carved (recorded in the evidence; the thorough tier carves them).
         jobs = []
-        for bi, (b, tclean, clean_sha) in enumerate(bases):
-            limit = min(CAP, max(10.0, 200 * tclean))
+        carve_ok = {}
+        for bi, (b, tparse, tcarve, clean_sha) in enumerate(bases):
+            ok = ctx.thorough() or tcarve <= SLOW_CARVE
+            if not ok:
+                ctx.extra.setdefault("bases_not_carved_in_quick_tier", []).append(
+                    {"base": bi, "page_size": b.cfg["page_size"], "rows": b.cfg["rows"],
+                     "clean_carve_s": round(tcarve, 1) if tcarve != float("inf") else "more than 17 s"})
+            limit = min(CAP, max(10.0, 40 * (tparse + (tcarve if ok else 0.0))))
             for ci, (desc, data) in enumerate(K.corruptions(b.path, r, per_db)):
                 p = sc.path(f"c{bi}_{ci}.db")
                 with open(p, "wb") as fh:
                     fh.write(data)
+                carve_ok[p] = ok
                 jobs.append((p, desc, limit, clean_sha, b.cfg, None))
         # damaged write-ahead logs: header fields, frame header fields, truncations, flips
         for hi in range(4 if ctx.thorough() else 2):
@@ -182,8 +208,10 @@ def run(ctx, per_db_quick=48, per_db_thorough=600):
                 continue
             t0 = time.time()
             clean, vh, e = D.dump_history(h.db, h.wal)
-            carve_stage(vh.versions[0], vh)
-            limit = min(CAP, max(10.0, 200 * (time.time() - t0)))
+            tparse = time.time() - t0
+            tcarve = clean_carve_seconds(ctx, h.db, h.wal, tparse, lambda: carve_stage(vh.versions[0], vh))
+            wal_carve_ok = ctx.thorough() or tcarve <= SLOW_CARVE
+            limit = min(CAP, max(10.0, 40 * (tparse + (tcarve if wal_carve_ok else 0.0))))
             clean_sha = hashlib.sha1(clean.encode()).hexdigest()
             walb = open(h.wal, "rb").read()
             ps = int.from_bytes(walb[8:12], "big")
@@ -204,12 +232,14 @@ def run(ctx, per_db_quick=48, per_db_thorough=600):
                 p = sc.path(f"w{hi}_{ci}.db-wal")
                 with open(p, "wb") as fh:
                     fh.write(d)
+                carve_ok[p] = wal_carve_ok
                 jobs.append((h.db, desc, limit, clean_sha, cfg, p))
             for ci in range(10):
                 cut = r.randint(0, len(walb))
                 p = sc.path(f"w{hi}_t{ci}.db-wal")
                 with open(p, "wb") as fh:
                     fh.write(walb[:cut])
+                carve_ok[p] = wal_carve_ok
                 jobs.append((h.db, {"kind": "wal.truncate", "at": cut}, limit, clean_sha, cfg, p))
 
         # relaxed format checking must not relax the resource bounds: every damaged header field, and every eleventh other
@@ -221,7 +251,7 @@ def run(ctx, per_db_quick=48, per_db_thorough=600):
             idx, job = ij
             p, desc, limit, clean_sha, cfg, wal, strict = job
             # quick tier: the carving stages run on the targeted cycles and on every third other damaged copy
-            carve_too = ctx.thorough() or "cycle" in desc["kind"] or (idx % 3 == 0)
+            carve_too = carve_ok.get(wal or p, True) and (ctx.thorough() or "cycle" in desc["kind"] or (idx % 3 == 0))
             impl = run_impl(p, limit, wal, carve_too, strict)
             model = None
             if "sha" in impl:
@@ -294,7 +324,7 @@ def run(ctx, per_db_quick=48, per_db_thorough=600):
             ctx.sample({"corruption": desc, "impl": impl.get("prefix", str(impl))[:80]}, cap=6)
         for p, wal, strict, limit, case in hang_candidates:
             n0 = len(ctx.oracle_failures)
-            again = run_impl(p, limit, wal, True, strict)
+            again = run_impl(p, limit, wal, carve_ok.get(wal or p, True), strict)
             if again.get("timeout"):
                 ctx.branch("impl:timeout")
                 ctx.oracle_fail("hang", f"processing a damaged file did not finish within {limit:.0f} s (twice; the second time alone)",
@@ -320,7 +350,7 @@ def run(ctx, per_db_quick=48, per_db_thorough=600):
         if len(model_retry) > 40:
             ctx.notes.append(f"{len(model_retry) - 40} model time-outs not asked again")
         ctx.extra["slowest_parse_s"] = round(slowest, 2)
-        ctx.extra["time_limit_rule"] = "min(cap, max(10 s, 200 x clean parse time)); cap 60 s quick / 600 s thorough; a time-out is judged again alone"
+        ctx.extra["time_limit_rule"] = "min(cap, max(10 s, 40 x clean run)); cap 120 s quick / 900 s thorough; a time-out is judged again alone; quick tier does not carve copies of bases whose clean carving stage exceeds 3 s"
     finally:
         sc.close()
 
